@@ -272,7 +272,7 @@ Proof.
   cbn [forallb] in Hsuf. apply andb_true_iff in Hsuf as [_ Hrest].
   unfold is_ncname, is_name. cbn [forallb]. rewrite Hs. unfold not_colon at 1. rewrite Hc. simpl.
   assert (forallb is_name_char loc' = true /\ forallb not_colon loc' = true) as [-> ->]; [|reflexivity].
-  clear -Hrest. induction loc' as [|x l IH]; [auto|]. simpl in *.
+  clear -Hrest. induction loc' as [|x l IH]; [auto|]. cbn [forallb] in *.
   apply andb_true_iff in Hrest as [Hx Hl]. destruct (not_brk x Hx) as [-> ->]. simpl. auto.
 Qed.
 
@@ -286,7 +286,7 @@ Proof.
   - unfold nc_start. rewrite Hs. exact Hc.
   - cbn [forallb]. apply andb_true_iff. split.
     + unfold brk. rewrite (name_start_is_name c Hs). unfold not_colon in Hc. apply negb_true_iff in Hc. rewrite Hc. reflexivity.
-    + clear -Hn Hr. induction r as [|x r IH]; [reflexivity|]. simpl in *.
+    + clear -Hn Hr. induction r as [|x r IH]; [reflexivity|]. cbn [forallb] in *.
       apply andb_true_iff in Hn as [A B]. apply andb_true_iff in Hr as [C D].
       rewrite (IH B D), andb_true_r. unfold brk. rewrite A. unfold not_colon in C. apply negb_true_iff in C. rewrite C. reflexivity.
 Qed.
@@ -303,13 +303,12 @@ Proof.
   rewrite (span_all_app (fun x => negb (brk x)) (rev (c :: r)) (rev a)) by (rewrite forallb_rev; exact Hall).
   assert (Ha : existsb brk a = true).
   { rewrite existsb_app in Hbrk. apply orb_true_iff in Hbrk as [H|H]; [exact H|].
-    exfalso. clear -H Hall. induction (c :: r) as [|x l IH]; [discriminate|]. simpl in *.
+    exfalso. clear -H Hall. induction (c :: r) as [|x l IH]; [discriminate|]. cbn [forallb existsb] in *.
     apply andb_true_iff in Hall as [A B]. apply orb_true_iff in H as [H|H]; [rewrite H in A; discriminate|auto]. }
   assert (Hne : snd (span (fun x => negb (brk x)) (rev a)) <> []).
-  { apply span_snd_nonempty. rewrite <- (rev_involutive a) in Ha. 
-    clear -Ha. rewrite existsb_exists in *. destruct Ha as (x & Hin & Hx). exists x. split.
-    - apply in_rev in Hin. rewrite rev_involutive. rewrite rev_involutive in Hin. apply in_rev. rewrite rev_involutive. exact Hin.
-    - rewrite Hx. reflexivity. }
+  { apply span_snd_nonempty. clear -Ha. rewrite existsb_exists in *.
+    destruct Ha as (x & Hin & Hx). exists x. split; [apply in_rev in Hin; exact Hin|].
+    rewrite Hx. reflexivity. }
   destruct (span (fun x => negb (brk x)) (rev a)) as [u pre_rev]. cbn [fst snd] in Hne. cbn [fst snd].
   destruct pre_rev as [|b0 pre']; [congruence|].
   pose proof (span_snd_nonempty (fun x => negb (nc_start x)) (b0 :: rev (rev (c :: r) ++ u))) as Hne2.
@@ -317,7 +316,7 @@ Proof.
   cbn [fst snd] in Hne2. destruct loc as [|x loc']; [|discriminate].
   intros _. apply Hne2; [|reflexivity].
   rewrite rev_app_distr, rev_involutive. cbn [existsb]. rewrite existsb_app. cbn [existsb].
-  rewrite Hc. simpl. rewrite !orb_true_r. reflexivity.
+  rewrite Hc. cbn [negb]. rewrite !orb_true_r. reflexivity.
 Qed.
 
 Lemma has_colon_brk s : has 58 s = true -> existsb brk s = true.
@@ -354,8 +353,8 @@ Lemma forallb_impl {A} (P Q : A -> bool) l : (forall x, P x = true -> Q x = true
 Proof. intros H. induction l as [|x l IH]; [reflexivity|]. simpl. intros E. apply andb_true_iff in E as [A1 B]. rewrite (H x A1), (IH B). reflexivity. Qed.
 Lemma pad_is P n : P 10 = true -> P 32 = true -> forallb P (pad_str n) = true.
 Proof.
-  intros H10 H32. apply (forallb_impl _ _ _ (fun c Hc => _) (pad_chars n)).
-  Unshelve. apply orb_true_iff in Hc as [E|E]; apply N.eqb_eq in E; subst; assumption.
+  intros H10 H32. apply (forallb_impl (fun c => (c =? 10) || (c =? 32)) P); [|apply pad_chars].
+  intros c Hc. apply orb_true_iff in Hc as [E|E]; apply N.eqb_eq in E; subst; assumption.
 Qed.
 Lemma pad_ws n : ws_only (pad_str n) = true.
 Proof. apply pad_is; reflexivity. Qed.
@@ -376,11 +375,13 @@ Definition safe (st : option rstate) : bool :=
   match st with Some (MProp _ _ _ _ _ _, _) => false | _ => true end.
 Lemma step_pad strict s n : safe (Some s) = true -> step strict s (EPad n) = Some s.
 Proof.
-  destruct s as [m acc]. destruct m; simpl; try discriminate; intros _;
-    unfold step_text; rewrite pad_rd, pad_ws; reflexivity.
+  destruct s as [m acc]. cbn [step]. unfold step_text.
+  destruct m; cbn [safe]; try discriminate; intros _; rewrite pad_rd, pad_ws; reflexivity.
 Qed.
 Lemma run_none strict evs : run strict None evs = None.
 Proof. destruct evs; reflexivity. Qed.
+Lemma run_cons strict s e r : run strict (Some s) (e :: r) = run strict (step strict s e) r.
+Proof. reflexivity. Qed.
 
 (* the shape of what the formatter emits: a property start tag is directly followed by its text *)
 Definition is_prop_q (q : qname) : bool := match q with QLocal _ | QPropEmpty => true | _ => false end.
@@ -423,7 +424,7 @@ Proof.
   destruct st as [s|]; [|rewrite !run_none; reflexivity].
   assert (Hskip : forall l rest, (forall t r', e :: r <> EText t :: r') ->
             run strict (Some s) ((if slb then [EPad l] else []) ++ rest) = run strict (Some s) rest).
-  { intros l rest Hne. destruct slb; [|reflexivity]. simpl.
+  { intros l rest Hne. destruct slb; [|reflexivity]. cbn [app run].
     destruct (Hsafe eq_refl) as [Hs|(t & r' & E)]; [|exfalso; exact (Hne t r' E)].
     rewrite (step_pad strict s l Hs). reflexivity. }
   destruct e as [|q a|q|q a|raw|k]; try discriminate.
@@ -471,8 +472,10 @@ Qed.
 Theorem indent_invisible strict n ts :
   read strict (wr (Some n) false 0 (fmt_doc ts)) = read strict (fmt_doc ts).
 Proof.
-  unfold read, fmt_doc. cbn [wr app]. cbn [run step].
-  rewrite (step_pad strict (MDoc, []) 0 eq_refl). cbn [run step step_start].
+  unfold read, fmt_doc. cbn [wr app].
+  rewrite !run_cons. change (step strict (MDoc, []) EDecl) with (Some (MDoc, @nil rtriple)).
+  rewrite !run_cons. rewrite (step_pad strict (MDoc, []) 0 eq_refl). rewrite !run_cons.
+  change (step strict (MDoc, []) (EStart QRdf [(KXmlnsRdf, escape_attr rdf_ns)])) with (Some (MRdf, @nil rtriple)).
   rewrite run_wr; [reflexivity| |intros _; left; reflexivity].
   rewrite shaped_fmt_body. reflexivity.
 Qed.
@@ -489,7 +492,7 @@ Fixpoint unpad (evs : list event) : list event :=
 Lemma unpad_wr ind : forall evs slb lvl, unpad (wr ind slb lvl evs) = unpad evs.
 Proof.
   induction evs as [|e r IH]; intros; [reflexivity|].
-  destruct e; cbn [wr]; destruct ind as [n|]; try destruct slb; cbn [app unpad]; rewrite ?IH; reflexivity.
+  destruct e; cbn [wr]; destruct ind as [m|]; try destruct slb; cbn [app unpad]; rewrite ?IH; reflexivity.
 Qed.
 (* ... and a pad is never adjacent to a text event (so lexing the flattened bytes gives back
    exactly these events: pads are separate whitespace-only text nodes between two tags) *)
